@@ -10,6 +10,7 @@ import (
 
 	"verif/lint/internal/effects"
 	"verif/lint/internal/load"
+	"verif/lint/internal/paths"
 	"verif/lint/internal/report"
 )
 
@@ -56,6 +57,7 @@ func runC20(x *Ctx) {
 	x.C.Rule("C20.R1", "no read-only operation may write memory reachable from a token (or the other immutable values)", 1)
 	x.C.Rule("C20.R2", "no store to package-level variables on read paths (except schema loading under sync.Once)", 1)
 	x.C.Rule("C20.R3", "canary: the analysis flags the three seeded writes and not the clean method", 1)
+	x.C.Rule("C20.R4", "writeable clones are deep copies: no container of the token escapes into them", 2)
 
 	var roots []*ssa.Function
 	for _, f := range x.P.ExportedAPI() {
@@ -96,6 +98,8 @@ func runC20(x *Ctx) {
 	x.C.Obl("C20.R1", "write-free", "-", fmt.Sprintf("no may-write of owned memory in the %d functions reachable from the %d read-only roots", nfun, len(roots)), nW == 0, fmt.Sprintf("%d write(s), listed above", nW))
 	x.C.Obl("C20.R2", "globals", "-", "no store to package-level variables on read paths", nG == 0, "")
 
+	deepClones(x)
+
 	// canary
 	cdir := filepath.Join(x.VerifDir, "lint", "testdata", "canary")
 	cp, err := load.Load(load.Options{Dir: cdir, Module: "canary"})
@@ -128,4 +132,50 @@ func runC20(x *Ctx) {
 	}
 	sort.Strings(gs)
 	x.C.Obl("C20.R3", "canary", "lint/testdata/canary/c20/c20.go", "the seeded writes (sort of a shared slice, store through an alias from a helper, counter field) are flagged and the copy-then-sort method is not", ok, "flagged: "+strings.Join(gs, " "))
+}
+
+// deepClones: (*Args).Clone and (*Meta).Clone (reached through ReadOnly.WriteableClone) return a
+// record whose slice / map fields are freshly made: a later Add on the clone must not write the
+// token's own containers.
+func deepClones(x *Ctx) {
+	for _, name := range []string{"(*pkg/args.Args).Clone", "(*pkg/meta.Meta).Clone"} {
+		f := x.fn("C20.R4", name)
+		if f == nil {
+			continue
+		}
+		ps := x.pathsQuiet(f)
+		ok, n := true, 0
+		detail := ""
+		for _, p := range ps {
+			if p.End != paths.EndReturn {
+				continue
+			}
+			n++
+			cell := paths.CellOf(p.Results()[0])
+			if cell == nil {
+				ok = false
+				detail += "returns " + p.Results()[0].String() + " (not a freshly allocated record)\n"
+				continue
+			}
+			// no whole-struct copy of the receiver into the clone
+			p.Instrs(func(in ssa.Instruction) {
+				if st, isSt := in.(*ssa.Store); isSt && st.Addr == cell {
+					ok = false
+					detail += x.P.Pos(in.Pos()) + ": the clone is initialised by copying the whole record (" + p.Term(st.Val).String() + "): its map / slice fields alias the original\n"
+				}
+			})
+			for fld, v := range p.FieldStores(cell) {
+				fresh := v.Op == "make" || (v.Op == "call" && (v.Name == "slices.Clone" || v.Name == "maps.Clone" || strings.HasPrefix(v.Name, "slices.Clone[") || strings.HasPrefix(v.Name, "maps.Clone[")))
+				if !fresh {
+					ok = false
+					detail += "field " + fld + " of the clone is " + v.String() + ", not a fresh container\n"
+				}
+			}
+			if len(p.FieldStores(cell)) < 2 {
+				ok = false
+				detail += "not every container field of the clone is assigned a fresh container\n"
+			}
+		}
+		x.C.Obl("C20.R4", "deep-clone:"+name, x.pos(f), "Clone returns a new record whose Keys and Values are fresh containers", ok && n > 0, detail)
+	}
 }
